@@ -42,6 +42,10 @@ class FakeTime:
     def sleep(self, s):
         self.now += s
 
+    def __getattr__(self, name):
+        import time as _t
+        return getattr(_t, name)
+
 
 class ClockSock(env.ScriptSock):
     """ScriptSock + virtual clock: waiting on an empty inbox costs the socket timeout (or blocks forever without one)."""
@@ -138,12 +142,11 @@ class Harness:
         lib.reset_globals()
         env.install_urandom("counter")
         clock = FakeTime()
-        lib._core.time = clock
+        undo = env.patch_clock(clock)
         try:
             return self.run(ch, clock)
         finally:
-            import time as _t
-            lib._core.time = _t
+            undo()
 
     def run(self, ch, clock):
         d = self.d
